@@ -26,7 +26,7 @@ ASSUMPTIONS = [
 RULE = ("(1) every case of the HTML tokenizer cover (73 start states × 41 character classes × suffixes) whole and in "
         "one-character chunks, both exact_errors settings: no panic, queue drained, exactly one EOF as last token, model never "
         "out of fuel; (2) XML tokenizer stress strings whole/chunked; (3) `total` engine: documents, fragments (14 contexts) "
-        "and XML with pathological depth/length (10^4 quick, 10^5..10^6 thorough: nested elements of every class — formatting, "
+        "and XML with pathological depth/length (3·10^3 quick, 3·10^4..10^6 thorough: nested elements of every class — formatting, "
         "block, table parts, template, select, svg/math, unclosed comments, attribute floods, character-reference floods) "
         "under chunk sizes 0/1/7/4096 and option sets. non-trivial = input longer than 8 characters or started in a non-data "
         "state; distinct = distinct (case, output)")
@@ -77,7 +77,7 @@ def gen_cases(tier, rng):
             cases.append(("xmltok\ttok\texact=%d,bom=1\t-\t%s" % (exact, "|".join(_hx(u) for _ in range(min(n, 100)))), "xmltok"))
             cases.append(("xmltok\ttree\texact=%d,bom=1\t%s" % (exact, _hx(u * n)), "xmltree"))
     # (3) whole parsers on pathological inputs
-    depth = 3000 if tier == "quick" else 100000
+    depth = 3000 if tier == "quick" else 30000
     for name, unit in UNITS.items():
         for kind in ["html"] + (CTXS if tier == "thorough" else CTXS[::4]):
             k = kind if kind == "html" else "frag:" + kind
